@@ -147,6 +147,25 @@ class NameGraph:
         return None
 
 
+def _enumerated_idiom(repo, f, t, h, short):
+    """the two documented exceptions of C19, recognised by their shape wherever the code lives:
+       (1) `try: X = sorted(...)  except TypeError: pass`  - fall-back to insertion order for incomparable keys (C16);
+       (2) `try: __import__(name)  except ImportError: raise ConstructorError(...)` - the unsafe import branch."""
+    body_calls = [x for s in t.body for x in ast.walk(s) if isinstance(x, ast.Call)]
+    if short == ['TypeError'] and len(t.body) == 1 and len(body_calls) == 1 and norm(body_calls[0].func) == 'sorted' \
+            and all(isinstance(s, ast.Pass) for s in h.body):
+        return 'documented fall-back to insertion order when keys are not comparable (C16); a TypeError from a user ' \
+               '__lt__ is indistinguishable by design'
+    if short == ['ImportError'] and len(t.body) == 1 and len(body_calls) == 1 and norm(body_calls[0].func) == '__import__' \
+            and h.body and isinstance(h.body[-1], ast.Raise) and h.body[-1].exc is not None:
+        exc = h.body[-1].exc
+        target = exc.func if isinstance(exc, ast.Call) else exc
+        r = repo.resolve_expr(f.module, target)
+        if r is not None and r.kind == 'class' and repo.is_yaml_error(r.obj):
+            return 'unsafe=True branch only: a failing import of a document-named module is reported as ConstructorError by design'
+    return None
+
+
 def r_no_foreign_catch(ctx, repo):
     rule = ctx.rule('R-NO-FOREIGN-CATCH', 'no except clause in the package can intercept an exception that originates in caller-supplied '
                                           'code (stream methods, registered constructors/representers, reduction protocol, iteration '
@@ -186,11 +205,10 @@ def r_no_foreign_catch(ctx, repo):
                 if reraises:
                     rule.ok(where, 'except %s in %s re-raises unchanged' % (','.join(short), f.name))
                     continue
-                enumerated = [s for s in short if (f.qualname, s) in ENUMERATED]
-                if enumerated and len(enumerated) == len(short):
-                    rule.ok(where, 'except %s in %s: enumerated exception (%s)' % (','.join(short), f.name,
-                                                                                    ENUMERATED[(f.qualname, short[0])][:60]))
-                    ctx.assume('C19 exception: %s catches %s - %s' % (f.qualname, short[0], ENUMERATED[(f.qualname, short[0])]))
+                idiom = _enumerated_idiom(repo, f, t, h, short)
+                if idiom is not None:
+                    rule.ok(where, 'except %s in %s: enumerated exception (%s)' % (','.join(short), f.name, idiom[:60]))
+                    ctx.assume('C19 exception: %s catches %s - %s' % (f.qualname, short[0], idiom))
                     continue
                 rule.fail('%s|%s|%s' % (f.qualname, ','.join(short), reach[0][:60]), f.module.rel, h.lineno, f.qualname,
                           'except %s' % ','.join(names),
@@ -208,7 +226,7 @@ def r_no_foreign_catch(ctx, repo):
                     else:
                         rule.fail('%s|module-level|%s' % (m.name, norm(h.type)), m.rel, h.lineno, m.name, 'except %s' % norm(h.type),
                                   'module-level handler other than the optional-extension ImportError guard')
-    rule.require_min(12, 'handlers')
+    rule.require_min(7, 'handlers')
     ctx.extra['handlers'] = handlers
     ctx.extra['finally_only_blocks'] = finals
     return rule
